@@ -22,13 +22,13 @@ from .model import TreeModel
 from .snapshot import ustr
 
 MUTATING = {"mk_group", "mk_object", "add_data", "add_comment", "add_file", "set_values", "rename", "set_flag",
-            "set_meta", "move", "copy", "rm_ws", "rm_parent", "pg_add", "pg_rm", "pg_del", "mk_dup", "pg_new", "move_data", "copy_extent", "type_edit", "hole_attr", "rm_all", "reattach"}
+            "set_meta", "move", "copy", "rm_ws", "rm_parent", "pg_add", "pg_rm", "pg_del", "mk_dup", "pg_new", "move_data", "copy_extent", "type_edit", "retype", "hole_attr", "rm_all", "reattach"}
 SCHEDULE = {"gc", "drop", "close_reopen", "reopen_same", "save_as", "list", "lookup", "observe", "tidy"}
 
 BASE_WEIGHTS = {
     "mk_group": 6, "mk_object": 10, "add_data": 12, "add_comment": 2, "add_file": 1, "set_values": 5,
     "rename": 4, "set_flag": 3, "set_meta": 3, "move": 5, "copy": 6, "rm_ws": 5, "rm_parent": 4,
-    "pg_add": 4, "pg_rm": 2, "pg_del": 1, "pg_new": 2, "mk_dup": 0, "move_data": 3, "copy_extent": 2, "type_edit": 2, "hole_attr": 0, "rm_all": 2, "reattach": 2,
+    "pg_add": 4, "pg_rm": 2, "pg_del": 1, "pg_new": 2, "mk_dup": 0, "move_data": 3, "copy_extent": 2, "type_edit": 2, "retype": 1, "hole_attr": 0, "rm_all": 2, "reattach": 2,
     "gc": 5, "drop": 3, "close_reopen": 4, "reopen_same": 2, "save_as": 1, "list": 3, "lookup": 3, "observe": 2,
 }
 PROFILES = {
@@ -36,7 +36,7 @@ PROFILES = {
     "C02": {"rm_parent": 6, "move": 7, "copy": 8, "close_reopen": 6, "move_data": 6, "copy_extent": 5, "pg_add": 6},
     "C05": {"rm_ws": 12, "rm_parent": 9, "pg_add": 8, "pg_rm": 4, "pg_new": 5, "lookup": 6, "copy": 4, "set_flag": 5},
     "C06": {"mk_dup": 8, "copy": 10, "rm_ws": 6, "rm_parent": 5, "lookup": 4},
-    "C09": {"observe": 4, "list": 4, "type_edit": 6, "copy": 9},
+    "C09": {"observe": 4, "list": 4, "type_edit": 6, "retype": 8, "copy": 9},
     "C12": {"copy": 16, "set_values": 7, "rename": 6, "set_meta": 6, "pg_add": 6, "copy_extent": 6, "pg_new": 3},
 }
 
@@ -1199,6 +1199,58 @@ class World:
         del ent, dtype
         self.sim.probe("type_edit_" + what)
         return outcome
+
+    @staticmethod
+    def _typed_data(rec):
+        return not rec.get("concat") and rec["cls"] not in ("CommentsData", "FilenameData")
+
+    def gen_retype(self, rng, h):
+        model = self.h[h].model
+        counts: dict = {}
+        for r in model.recs.values():
+            counts[r["type_uid"]] = counts.get(r["type_uid"], 0) + 1
+        # prefer a data set whose current type has other users (a copy, a sibling created with the same type)
+        t = (self.target(rng, h, "data", lambda r: self._typed_data(r) and counts.get(r["type_uid"], 0) > 1) if rng.random() < 0.7 else None) \
+            or self.target(rng, h, "data", self._typed_data)
+        if t is None:
+            return None
+        first = model.recs[self.resolve(h, t, self._typed_data)]
+        # another data set of the same class whose type differs (falls back to any data: then the operation is skipped)
+        t2 = self.target(rng, h, "data", lambda r: self._typed_data(r) and r["cls"] == first["cls"] and r["type_uid"] != first["type_uid"]) \
+            or self.target(rng, h, "data", self._typed_data)
+        return {"t": t, "t2": {**t2, "same_cls": True}}
+
+    def do_retype(self, op):
+        """Give a data set the (already stored) type of another data set of its class: its node changes, the new type
+        gains a user, the old type node stays as long as anything else uses it (C09)."""
+        h = op["h"]
+        model = self.h[h].model
+        uid = self.resolve(h, op["t"], self._typed_data)
+        if uid is None:
+            return "skipped"
+        rec = model.recs[uid]
+        uid2 = self.resolve(h, op["t2"], lambda r: self._typed_data(r) and r["cls"] == rec["cls"] and r["type_uid"] != rec["type_uid"])
+        if uid2 is None or uid2 == uid:
+            return "skipped"
+        rec2 = model.recs[uid2]
+        if rec.get("primitive") != rec2.get("primitive"):
+            return "skipped"
+        self.touch(h, uid)
+        ent, other = self.ent(h, uid), self.ent(h, uid2)
+        new_type = other.entity_type
+
+        def assign():
+            ent.entity_type = new_type
+
+        _, outcome = self.call(assign, what="retype")
+        del ent, other, new_type
+        if outcome != "ok":
+            return outcome
+        if any(r["type_uid"] == rec["type_uid"] for u, r in model.recs.items() if u != uid):
+            self.sim.probe("retype_old_type_shared")
+        rec["type_uid"] = rec2["type_uid"]
+        self.sim.probe("retype")
+        return "ok"
 
     def gen_hole_attr(self, rng, h):
         t = self.target(rng, h, "object", lambda r: r.get("concat"))
